@@ -67,6 +67,13 @@ def gen_cases(ctx, n, maxdim):
                     vecs.append(v)
             c["lowrank"] = {"vals": [r.choice([0.25, 4.0, 9.0, 0.0625, 2.25]) for _ in range(rank)], "vecs": vecs,
                             "mu": [r.randint(-8, 8) / 8 for _ in range(dim)]}
+        if r.random() < 0.3:
+            # direct integrator calls with step-size factors (MCLMC's retry halves the step): a path
+            # forward and the same path backward
+            fs = [r.choice([1.0, 0.5, 0.25, 0.75, 0.125]) for _ in range(r.randint(1, 3))]
+            c["single_steps"] = [[1, f] for f in fs] + [[-1, f] for f in reversed(fs)]
+            if r.random() < 0.5:
+                c["single_steps"] = [[-d, f] for d, f in c["single_steps"]]
         cases.append(c)
     return cases
 
@@ -102,7 +109,7 @@ def step_exprs(c, o, max_steps):
             if st_ is None or n >= max_steps:
                 continue
             sign = lf["idx"] - lf["start_idx"]
-            eps = Fraction(c["step_size"]) * sign
+            eps = Fraction(c["step_size"]) * sign * Fraction(lf.get("factor", 1.0))
             ce, se = math.cos(float(eps)), math.sin(float(eps))
             q = [Fraction(b2f(b)) for b in st_["q"]]
             v = [Fraction(b2f(b)) for b in st_["v"]]
@@ -138,6 +145,20 @@ def compare_step(c, lf, m):
     if not close(kin[0], lf["kinetic"]):
         diffs.append("kinetic energy: model %.12g implementation %.12g" % (kin[0][0] / kin[0][1], b2f(lf["kinetic"])))
     return diffs
+
+
+def oracle_reversible(c, d):
+    """a path of integrator steps followed by the same steps backward returns to the start"""
+    bad = []
+    if not d.get("single_steps") or len(d["leapfrogs"]) != len(c["single_steps"]) or any(lf["diverged"] for lf in d["leapfrogs"]):
+        return bad
+    a, b = d["init"], d["final"]
+    for key in ("q", "v", "x"):
+        for i, (u, w) in enumerate(zip(a[key], b[key])):
+            if abs(b2f(u) - b2f(w)) > 1e-9 * (1 + abs(b2f(u))):
+                bad.append("steps %s then back: %s[%d] returns to %r instead of %r" % (c["single_steps"][:len(c["single_steps"]) // 2], key, i, b2f(w), b2f(u)))
+                return bad
+    return bad
 
 
 def oracle_point(c, p):
@@ -176,10 +197,15 @@ def run(ctx):
         o = outs.get(c["id"])
         if not o or o.get("init_state") != "ok":
             continue
-        e, m = step_exprs(c, o, 2 if quick else 4)
+        e, m = step_exprs(c, o, 6 if c.get("single_steps") else (2 if quick else 4))
         exprs += e
         meta += m
         for d in o["draws"]:
+            rb = oracle_reversible(c, d)
+            if rb and nb < 3:
+                nb += 1
+                violation(ctx, "implementation violates C02: %s" % rb[0],
+                          {"case": {k: v for k, v in c.items() if k != "words"}, "failures": rb}, found_input=True)
             for p in [d.get("init")] + [lf for lf in d["leapfrogs"] if not lf["diverged"]]:
                 if p:
                     bad = oracle_point(c, p)
@@ -189,6 +215,36 @@ def run(ctx):
                                   {"case": {k: v for k, v in c.items() if k != "words"}, "point_index": p["idx"], "failures": bad},
                                   found_input=True)
     ctx.oblig("impl-audit-logdet-energy", nb == 0, "%d points" % nb)
+    # the diagonal transformation is written by the adaptation kernels as a pair (scale, inverse
+    # scale): forward map / gradient pull-back use one, inverse map / log-determinant the other.
+    # They must stay reciprocal for every update, including clamped and rejected estimates.
+    import estimator as est
+    ok2, out2 = build_harness(["kernels"])
+    ctx.oblig("harness-build-kernels", ok2, out2[-2000:])
+    nrec = 0
+    if ok2:
+        kc = [c for c in est.gen_kernel_cases(ctx, 400 if quick else 4000) if c["op"] != "update_variance"]
+        # ratios beyond the clamp range
+        r = ctx.rnd()
+        for c in kc[: len(kc) // 4]:
+            if c["op"] == "var_inv_std_draw_grad":
+                c["z"] = [str(est.f2b(10.0 ** r.randint(-60, 60))) for _ in range(c["n"])]
+                c["w"] = [str(est.f2b(10.0 ** r.randint(-60, 60))) for _ in range(c["n"])]
+        kouts, kerrs = run_harness_parallel("kernels", kc)
+        ctx.oblig("harness-run-kernels", not kerrs and len(kouts) == len(kc), "\n".join(kerrs)[:1500])
+        for c in kc:
+            o = kouts.get(c["id"])
+            if not o or "panic" in o:
+                continue
+            for i in range(c["n"]):
+                ctx.evaluations += 1
+                s_, is_ = b2f(o["v2"][i]), b2f(o["v"][i])
+                if 0 < s_ < float("inf") and 0 < is_ < float("inf") and abs(s_ * is_ - 1.0) > 1e-12:
+                    nrec += 1
+                    if nrec <= 3:
+                        violation(ctx, "implementation violates C02: %s leaves scale %r and inverse scale %r that are not reciprocal (inputs draw variance %r, gradient variance %r): the inverse map and log-determinant disagree with the forward map" % (
+                            c["op"], s_, is_, b2f(c["z"][i]), b2f(c["w"][i]) if c.get("w") else None), {"case": c, "element": i}, found_input=True)
+    ctx.oblig("impl-audit-scale-reciprocal", nrec == 0, "%d elements" % nrec)
     order = sorted(range(len(exprs)), key=lambda i: -meta[i][0]["dim"])
     shards = [[] for _ in range(16)]
     for k, i in enumerate(order):
